@@ -143,7 +143,7 @@ def run(ctx):
     reported_ip_is_source(ctx, "C17.b")
     ctx.ob("C17.b", gi.qual, strip(info.get("version", ("top",))) == ("param", ver_p), "reported version = the detected protocol version", func=gi.qual, file=file,
            construct='"version": version', fail="the reported version is not the detected one")
-    ctx.ob("C17.b", gi.qual, set(info) == {"ip", "port", "device_id", "name", "sn", "device_type", "version"}, "the mapping carries exactly ip/port/device_id/name/sn/device_type/version",
+    ctx.ob("C17.b", gi.qual, set(info) >= {"ip", "port", "device_id", "name", "sn", "device_type", "version"}, "the mapping carries ip/port/device_id/name/sn/device_type/version (further fields may ride along)",
            func=gi.qual, file=file, construct="info keys", detail={"keys": sorted(info)}, fail=f"device-info keys are {sorted(info)}")
     ctx.sample({"device_id": show(did)[:120], "port": show(port)[:100], "ip": show(info.get('ip'))})
     # ---- datagram_received hands over addr[0] and the detected version
